@@ -32,6 +32,7 @@ int main(int argc, char** argv) {
     for (size_t i = 0; i < in.size(); i++) in[i] = (unsigned char)(1 + i % 23);   // one-byte items 1..23 (position-dependent sentinels)
     if (Wh >= 0 && (size_t)(P + Wh) < in.size()) in[P + Wh] = wh;
     if (Wd >= 0 && (size_t)(P + Wd) < in.size()) in[P + Wd] = wb;
+    if (argc > 10) { std::string hx = argv[10]; for (size_t i = 0; i + 1 < hx.size() && P + i / 2 < in.size(); i += 2) in[P + i / 2] = (unsigned char)strtoul(hx.substr(i, 2).c_str(), 0, 16); }
     std::istringstream ss(std::string(in.begin(), in.end()));
     std::ifstream nofile;   // never opened: failbit without eofbit after the first read
     std::istream& is = unopened ? static_cast<std::istream&>(nofile) : static_cast<std::istream&>(ss);
